@@ -420,9 +420,9 @@ def gen_cyclic_group(rng, gid):
             "graphs": graphs}
 
 
-def gen_deep_group(rng, gid):
+def gen_deep_group(rng, gid, quick=True):
     """Deep non-tail nesting around the core equal?'s depth limit (10000) handled by (scheme base) equal?."""
-    n = rng.choice([100, 9999, 10000, 10001, 10050, 30000])
+    n = rng.choice([100, 9999, 10000, 10001, 10050] + ([] if quick else [30000]))
     form = rng.choice(["list", "vector"])
     if form == "list":
         mk = "(let lp ((i 0) (acc %s)) (if (= i %d) acc (lp (+ i 1) (cons acc (list 0)))))"
@@ -575,6 +575,8 @@ def judge_group(rep, g, res):
                          {"pair": [i, j], "hashes": [sh[i], sh[j]], "routes": [ms[i].route, ms[j].route]})
                 if V.fold_cps(ms[i].val[1]) == V.fold_cps(ms[j].val[1]) and sch[i] != sch[j]:
                     ascii_only = all(c < 128 for c in ms[i].val[1] + ms[j].val[1])
+                    if not ascii_only and ms[i].val != ms[j].val:
+                        route = "plain"          # case variants of non-ASCII letters: the folding itself is the cause
                     viol({"check": "hash-coherence", "fn": "string-ci-hash", "leaf": leaf, "route": route,
                           "chars": "ascii" if ascii_only else "non-ascii"},
                          {"pair": [i, j], "hashes": [sch[i], sch[j]], "routes": [ms[i].route, ms[j].route]})
@@ -897,7 +899,7 @@ def gen_history(rng, hid, api, nops):
                 v2 = nextval[0]
                 nextval[0] += 1
                 emit("(begin (hash-table-set! %s %s %d %s %d) (hash-table-size %s))" % (t, kx(k), v, kx(k2), v2, t),
-                     "set!*", k, None)
+                     "set!*", [k, k2], None)
                 for kk, vv in ((k, v), (k2, v2)):
                     tm.d[kk.canon] = (tm.d[kk.canon][0] if kk.canon in tm.d else kk.idx, vv)
                 steps[-1] = steps[-1][:3] + (len(tm.d),)
@@ -926,7 +928,7 @@ def gen_history(rng, hid, api, nops):
                         cnt += 1
                         del tm.d[kk.canon]
                 emit("(let ((r (hash-table-delete! %s %s))) (list (hash-table-size %s) r))" % (t, " ".join(kx(x) for x in ks), t),
-                     "delete!", k, ("retval", [len(tm.d)], cnt))
+                     "delete!", ks, ("retval", [len(tm.d)], cnt))
             else:
                 tm.d.pop(k.canon, None)
                 emit("(begin (hash-table-delete! %s %s) (hash-table-size %s))" % (t, kx(k), t), "delete!", k, len(tm.d))
@@ -1085,6 +1087,10 @@ def judge_history(rep, h, res):
                 k.route, k.cls = "spare-words", "bignum"
 
     def key_class(key):
+        if isinstance(key, list):
+            cs = [key_class(k) for k in key]
+            ex = [c for c in cs if c[1] != "plain"]
+            return ex[0] if ex else cs[0]
         if key is None:
             ex = sorted({(k.cls, k.route) for k in keys if k.route != "plain"})
             return ex[0] if ex else ("-", "-")
@@ -1113,7 +1119,7 @@ def judge_history(rep, h, res):
             if isinstance(got, list) and len(got) == 2 and same_datum(got[:1], exp[1]):
                 if not same_datum(got[1], exp[2]) and (op, "retval") not in retval_seen:
                     retval_seen.add((op, "retval"))
-                    rep.violation(dict(sig0, op=op, mode="return-value"),
+                    rep.violation({"check": "table", "api": h["api"], "op": op, "mode": "return-value"},
                                   dict(wit, step=i, op_text=text, expected_return=exp[2], got=str(got[1])))
                 done += 1
                 continue
@@ -1122,7 +1128,7 @@ def judge_history(rep, h, res):
             kc, kr = key_class(key)
             sig = dict(sig0, op=op, key=kc, route=kr, mode="wrong-result")
             wit.update({"step": i, "op": text, "expected": exp, "got": got,
-                        "key": key.m.expr[:300] if key else None,
+                        "key": [k.m.expr[:300] for k in (key if isinstance(key, list) else [key])] if key else None,
                         "prefix": [s[0] for s in steps[max(0, i - 8):i]], "form": h["form"][:6000]})
             rep.violation(sig, wit)
             return done
@@ -1165,8 +1171,8 @@ def check(rep, tier, seed, variant="hooks"):
     quick = tier == "quick"
     n_groups = 2400 if quick else 110000
     n_cyc = 500 if quick else 12000
-    n_deep = 12 if quick else 60
-    n_hist = 300 if quick else 20000
+    n_deep = 6 if quick else 60
+    n_hist = 260 if quick else 20000
 
     # ---- part (a)
     groups = []
@@ -1179,16 +1185,22 @@ def check(rep, tier, seed, variant="hooks"):
         g = gen_cyclic_group(rng, "c%d" % i)
         g["form"] = group_form(g)
         cyc.append(g)
+    deep = []
     for i in range(n_deep):
-        g = gen_deep_group(rng, "d%d" % i)
+        g = gen_deep_group(rng, "d%d" % i, quick)
         g["form"] = group_form(g)
-        cyc.append(g)
+        deep.append(g)
     res, procs = C.run_batches(b, IMPORTS, HEADER, [(g["id"], g["form"]) for g in groups], batch=150, env_extra=env,
                                timeout=120, heap="64M/512M")
     res2, procs2 = C.run_batches(b, IMPORTS, HEADER, [(g["id"], g["form"]) for g in cyc], batch=40, env_extra=env,
                                  timeout=60, heap="64M/512M")
     res.update(res2)
     procs += procs2
+    res2, procs2 = C.run_batches(b, IMPORTS, HEADER, [(g["id"], g["form"]) for g in deep], batch=1, env_extra=env,
+                                 timeout=60, heap="64M/512M")
+    res.update(res2)
+    procs += procs2
+    cyc += deep
     pairs = 0
     retry = []
     for g in groups + cyc:
@@ -1197,8 +1209,7 @@ def check(rep, tier, seed, variant="hooks"):
         for i in range(len(ms)):
             for j in range(i, len(ms)):
                 rep.case(("pair", g["kind"], g["depth"] if not g["cyclic"] else 0, toptype(ms[i]),
-                          tuple(sorted((ms[i].route, ms[j].route)))), n=0)
-        rep.case(None)
+                          tuple(sorted((ms[i].route, ms[j].route)))), n=1 if i == j else 2)
         if judge_group(rep, g, res.get(g["id"])) == "timeout":
             retry.append(g)
     # watchdog fired: re-run each such case alone; a repeat is non-termination
@@ -1241,7 +1252,7 @@ def check(rep, tier, seed, variant="hooks"):
             kinds = {s[1] for s in h["steps"]}
             for kd in kinds:
                 rep.case(("table", api, h["equiv"], kd, h["exotic"]), n=0)
-            rep.case(None)
+            rep.case(None, n=done)
     rep.extra["histories"] = len(hists)
     rep.extra["table_ops"] = ops
     if hists:
